@@ -868,7 +868,24 @@ impl World {
 	/// Build the world.  Must run on a thread whose ThreadKey is available
 	/// (registration uses one solo scoped_try_* per fresh lock).
 	pub fn build(spec: &WorldSpec) -> World {
-		let mut key = ThreadKey::get().expect("world builder needs this thread's key");
+		match ThreadKey::get() {
+			Some(key) => Self::build_with(spec, key),
+			None => {
+				// this thread's key is gone (a case leaked it, or the tree under
+				// test lost it): build on a fresh thread, which has a fresh key
+				let spec = spec.clone();
+				std::thread::spawn(move || {
+					let key = ThreadKey::get().expect("harness bug: a fresh thread has no key");
+					Self::build_with(&spec, key)
+				})
+				.join()
+				.expect("harness bug: world builder thread panicked")
+			}
+		}
+	}
+
+	fn build_with(spec: &WorldSpec, key: ThreadKey) -> World {
+		let mut key = key;
 		let mut arena = Arena::new();
 		let slots: Vec<Slot> =
 			spec.leaves.iter().enumerate().map(|(i, d)| new_slot(d, i as Lid, &mut key)).collect();
